@@ -23,7 +23,9 @@
 
 pub mod adapters;
 pub mod ledger;
+pub mod observers;
 pub mod shapes;
+pub mod sources;
 
 use ledger::{Anomaly, Ctx, St, Tracked};
 use shapes::*;
